@@ -203,16 +203,10 @@ class Ctx:
             mk = os.path.join(COQ, "Makefile")
             if write_coqproject() or not os.path.exists(mk):
                 return False
-            # (make -q is useless here: coq_makefile's recursive structure always reports work)
-            newest_dep = 0.0
-            for sub in ("generated", "theories"):
-                d = os.path.join(COQ, sub)
-                for f in os.listdir(d):
-                    if f.endswith(".v"):
-                        vo = os.path.join(d, f + "o")
-                        if not os.path.exists(vo) or os.path.getmtime(vo) < os.path.getmtime(os.path.join(d, f)):
-                            return False
-            return True
+            # (make -q is useless here: coq_makefile's recursive structure always reports work);
+            # a dry run uses the real dependency graph: any coqc command it would issue means work to do
+            rc, out, err = run(["make", "-n", "-k"], 300, cwd=COQ)
+            return rc == 0 and "coqc" not in out.lower().replace("coqchk", "") and "COQC" not in out
 
         fcntl.flock(self._lock, fcntl.LOCK_SH)
         changed, self.consts, self.translator_errors = regenerate(write=False)
